@@ -674,18 +674,27 @@ func c03r4(c *Ctx) {
 		}
 		n := 0
 		// the status decision tree may live in an extracted helper: its returns are judged in place
-		for _, rc := range p.mwExpandResult(p.pfReturnCases(fn), piFn) {
+		// … and a result collected in one local and returned once is judged per reaching definition
+		for _, cc := range p.pfSplitCollected(p.mwExpandResult(p.pfReturnCases(fn), piFn), piFn) {
+			rc := cc.ReturnCase
 			if !p.pfPossiblyNilUnder(rc.Results[eiFn], rc.Facts) {
 				continue
 			}
 			zero := false
-			for _, pv := range p.possibleValues(rc.Results[piFn]) {
-				if pfIsZeroConst(pv) {
-					zero = true
-				} else if _, _, isLit := compositeFields(pv); !isLit {
-					zero = true // not a literal we can see is non-zero: treat as possibly zero
-				} else if f, _, _ := compositeFields(pv); f["PhaseName"] == nil && f["FailedProbes"] == nil {
-					zero = true
+			switch cc.Written {
+			case pfMaybeWritten:
+				zero = true // some paths through this edge leave the collected result untouched
+			case pfAlwaysWritten:
+				zero = !cc.Must["PhaseName"] && !cc.Must["FailedProbes"]
+			default:
+				for _, pv := range p.possibleValues(rc.Results[piFn]) {
+					if pfIsZeroConst(pv) {
+						zero = true
+					} else if _, _, isLit := compositeFields(pv); !isLit {
+						zero = true // not a literal we can see is non-zero: treat as possibly zero
+					} else if f, _, _ := compositeFields(pv); f["PhaseName"] == nil && f["FailedProbes"] == nil {
+						zero = true
+					}
 				}
 			}
 			if !zero {
